@@ -45,12 +45,12 @@ Theorem getitem_empty_lists_refuted :
                       /\ getitem pinned e q = Err EValue.
 Proof. exists D33, (Two (IList []) (IList [])). repeat split; vm_compute; reflexivity. Qed.
 
-(* getitem_list_zip_truncates: numpy broadcasts A[[0,1],[1]] to two entries; zip keeps one (also on the repaired model:
-   this behaviour has no flag in the model, the generator never sends lists of different lengths) *)
+(* getitem_list_zip_truncates: numpy broadcasts A[[0,1],[1]] to two entries; zip keeps one *)
+Definition zipfl : flags := mkflags false false false false true false.
 Theorem getitem_list_zip_refuted :
-  exists (e : zop), wf e = true /\ getitem repaired e (Two (IList [0; 1]%Z) (IList [1]%Z)) = Vec [z 1]
-                    /\ getitem repaired e (Two (IList [0; 1]%Z) (IList [1; 1]%Z)) = Vec [z 1; z 4].
-Proof. exists D33. repeat split; vm_compute; reflexivity. Qed.
+  exists (e : zop) q, wf e = true /\ listed q = true /\ getitem zipfl e q = Vec [z 1]
+     /\ spec_index (den e) (fst (shape e)) (snd (shape e)) q = Some (SVec [z 1; z 4]) /\ getitem repaired e q = Vec [z 1; z 4].
+Proof. exists D33, (Two (IList [0; 1]%Z) (IList [1]%Z)). repeat split; vm_compute; reflexivity. Qed.
 
 (* a single python list of two integers falls into `case b, int(j)`: A[[0,1]] is the scalar A[0,1], numpy selects two rows *)
 Theorem getitem_single_list_refuted :
@@ -67,7 +67,7 @@ Proof. exists D33, [0; 1; 2]%nat, [1; 1]%nat, (of_list_mn 2 1 [[z 1]; [z 10]]). 
 
 (* `self.T is self` on an operator that is NOT symmetric (a wrongly inferred SelfAdjoint annotation, e.g. on the slice
    A[::-1, :] of a symmetric A): A[k] and A[k, a:b] return column k; entries, columns and products stay right *)
-Definition tself : flags := mkflags false false false false true.
+Definition tself : flags := mkflags false false false false false true.
 Theorem getitem_T_self_refuted :
   exists (e : zop), wf e = true /\ getitem tself e (One (IInt 0)) = Vec [z 1; z 3]
      /\ spec_index (den e) (fst (shape e)) (snd (shape e)) (One (IInt 0)) = Some (SVec [z 1; z 2])
